@@ -572,6 +572,50 @@ impl<'a> Visitor for EmpVisitor<'a> {
                 }
                 Obs::Ret(x) => x,
             };
+            if let Ok((read, _, _, _, _, _)) = &res {
+                // C14: "neighbouring FlexVec items keep their contents" -- on the value the implementation itself built
+                // (whatever the reference thinks of the construction): a growing edit of a non-last item must leave
+                // every other item as it was
+                if has("C14") && read.get("items").and_then(|v| v.as_array()).map(|a| a.len() >= 2 && a[0].get("at").is_some()).unwrap_or(false) {
+                    let n = arr(&read["items"]).len();
+                    let saved: Vec<u8> = pl.slice().to_vec();
+                    for i in 0..n - 1 {
+                        let item = &read["items"][i]["v"];
+                        let op = if item.get("bytes").is_some() {
+                            mk_op("push", 0, json!([97]))
+                        } else if item.get("cap").is_some() {
+                            match arr(&item["items"]).first() {
+                                Some(e0) => mk_op("push", 0, e0.clone()),
+                                None => continue,
+                            }
+                        } else {
+                            continue;
+                        };
+                        let r = guarded(|| {
+                            T::from_mut_bytes(pl.slice()).ok().map(|x| {
+                                let res = x.apply(&[i], &op, 0);
+                                (res, x.read(&mut Ctx::unbounded()))
+                            })
+                        });
+                        if let Obs::Ret(Some((res, after))) = r {
+                            if res.get("unsupported").is_none() {
+                                out.count("emp.flex.neighbour-probe");
+                                let a2 = arr(&after["items"]);
+                                let mut bad = a2.len() != n;
+                                for j in 0..n.min(a2.len()) {
+                                    if j != i && a2[j]["v"] != read["items"][j]["v"] {
+                                        bad = true;
+                                    }
+                                }
+                                if bad {
+                                    out.viol("C14", "neighbour", id, &format!("emplace.{}:item-edit", rel), format!("after pushing into item {} ({}) the other items changed: {} -> {} ({})", i, res, read, after, tag));
+                                }
+                            }
+                        }
+                        pl.slice().copy_from_slice(&saved);
+                    }
+                }
+            }
             match (&res, o) {
                 (Err(e), "ok") => {
                     let d = format!("content that fits {} bytes refused: {} ({})", l, err_json(e), tag);
@@ -616,48 +660,6 @@ impl<'a> Visitor for EmpVisitor<'a> {
                                 probs.push(("image", format!("byte {} is {} reference {}", i, pl.slice()[i], m)));
                                 break;
                             }
-                        }
-                    }
-                    // C14: "neighbouring FlexVec items keep their contents" -- on the value the implementation itself built
-                    // (whatever the reference thinks of the construction): a growing edit of a non-last item must leave
-                    // every other item as it was
-                    if has("C14") && read.get("items").and_then(|v| v.as_array()).map(|a| a.len() >= 2 && a[0].get("at").is_some()).unwrap_or(false) {
-                        let n = arr(&read["items"]).len();
-                        let saved: Vec<u8> = pl.slice().to_vec();
-                        for i in 0..n - 1 {
-                            let item = &read["items"][i]["v"];
-                            let op = if item.get("bytes").is_some() {
-                                mk_op("push", 0, json!([97]))
-                            } else if item.get("cap").is_some() {
-                                match arr(&item["items"]).first() {
-                                    Some(e0) => mk_op("push", 0, e0.clone()),
-                                    None => continue,
-                                }
-                            } else {
-                                continue;
-                            };
-                            let r = guarded(|| {
-                                T::from_mut_bytes(pl.slice()).ok().map(|x| {
-                                    let res = x.apply(&[i], &op, 0);
-                                    (res, x.read(&mut Ctx::unbounded()))
-                                })
-                            });
-                            if let Obs::Ret(Some((res, after))) = r {
-                                if res.get("unsupported").is_none() {
-                                    out.count("emp.flex.neighbour-probe");
-                                    let a2 = arr(&after["items"]);
-                                    let mut bad = a2.len() != n;
-                                    for j in 0..n.min(a2.len()) {
-                                        if j != i && a2[j]["v"] != read["items"][j]["v"] {
-                                            bad = true;
-                                        }
-                                    }
-                                    if bad {
-                                        out.viol("C14", "neighbour", id, &format!("emplace.{}:item-edit", rel), format!("after pushing into item {} ({}) the other items changed: {} -> {} ({})", i, res, read, after, tag));
-                                    }
-                                }
-                            }
-                            pl.slice().copy_from_slice(&saved);
                         }
                     }
                     if has("C05") {
